@@ -561,6 +561,27 @@ Proof.
   rewrite H. field. repeat split; assumption.
 Qed.
 
+(** the same for a non-membership witness (C, d) with C*(y+alpha) + d = V: one addition, one deletion *)
+Theorem single_add_correct_nm w y V a : fst w * (y + alpha) + snd w = V ->
+  let w' := single_update_nm K w y V (Vnext V [a] []) [a] [] in
+  fst w' * (y + alpha) + snd w' = Vnext V [a] [] /\ snd w' = snd w * (a - y).
+Proof.
+  intros H. unfold single_update_nm, upd_dels_nm, upd_adds_nm, Vnext, PA. cbn [fold_left map fprod fold_right fst snd].
+  split; [|reflexivity].
+  transitivity ((a - y) * (fst w * (y + alpha) + snd w) + V * (y + alpha)); [ring|]. rewrite H. field. apply (f1_nz K Kf).
+Qed.
+
+Theorem single_del_correct_nm w y V d : fst w * (y + alpha) + snd w = V -> d + alpha <> 0 -> d - y <> 0 ->
+  let w' := single_update_nm K w y V (Vnext V [] [d]) [] [d] in
+  fst w' * (y + alpha) + snd w' = Vnext V [] [d] /\ snd w' = snd w * finv K (d - y).
+Proof.
+  intros H Hd Hdy. unfold single_update_nm, upd_dels_nm, upd_adds_nm, Vnext, PA. cbn [fold_left map fprod fold_right].
+  destruct (feqb K (d - y) 0) eqn:E; [apply Keq in E; contradiction|]. cbn [fold_left fst snd].
+  split; [|reflexivity].
+  transitivity (((fst w * (y + alpha) + snd w) - V * 1 / ((d + alpha) * 1) * (y + alpha)) * finv K (d - y)); [ring|].
+  rewrite H. field. repeat split; assumption.
+Qed.
+
 Theorem single_del_self C y V : single_update K C y V (Vnext V [] [y]) [] [y] = C.
 Proof.
   unfold single_update, upd_dels. assert (E : y - y = 0) by ring. rewrite E.
